@@ -20,7 +20,7 @@ std::vector<Pair> pairs(double res, bool thorough) {
   std::vector<int> I = thorough ? std::vector<int>{-6, -5, -4, -3, -2, -1, 0, 1, 2, 3, 4, 5, 6} : std::vector<int>{-6, -1, 0, 1, 5};
   const double F[] = {0, 0.25, -0.25, 0.5};
   for (int i : I) for (double f : F) v.push_back((i + f) * res);
-  const double S[] = {-1000, 1000, -999.9995, 512, -512.3, 1.5, -1.5, -0.7, 2.25, 37.5, -64, 999.75};
+  const double S[] = {-1000, 1000, -999.9995, 512, 513, -512.3, 1.5, -1.5, -0.7, 2.25, 37.5, -64, 999.75};
   for (double s : S) v.push_back(s);
   std::sort(v.begin(), v.end());
   v.erase(std::unique(v.begin(), v.end()), v.end());
@@ -47,12 +47,13 @@ void run_grid(vf::Ctx& c, const char* tname, double res_d, const std::vector<Pai
     size_t k = (d == 0) ? a : (d == 1 ? (a * 7 + 3) % np : (a * 11 + 5) % np);
     lo[d] = (S)P[k].lo; hi[d] = (S)P[k].hi;
     if (form == 1) { S r = std::max(std::fabs(lo[d]), std::fabs(hi[d])); if (d) r = std::max(std::fabs(lo[0]), std::fabs(hi[0])); lo[d] = -r; hi[d] = r; }
+    if (form == 2 && d) { S shift = (S)((d == 1 ? 4 : -3) * (double)res); lo[d] = lo[0] + shift; hi[d] = hi[0] + shift; if (lo[d] < (S)-1000 || hi[d] > (S)1000) { lo[d] = lo[0]; hi[d] = hi[0]; } }   // twin axes: same width, a few cells apart
   }
   // quantifier: at most 1e7 cells
   long double cells = 1;
   for (size_t d = 0; d < DIM; ++d) cells *= ((long double)hi[d] - lo[d]) / res + 2;
   if (cells > 1e7L) { c.trivial(); return; }
-  G g0 = (form == 1) ? G(hi[0], res) : G(Interval<S, DIM>(lo, hi), res);
+  G g0 = (form == 1) ? G(hi[0], res) : G(Interval<S, DIM>(lo, hi), res);   // form 0 and 2: general interval form
   // the mapping under test is, in turn, the constructed object, a copy of it, or a default-constructed object assigned from it
   G gcopy(g0); G gassigned; gassigned = g0;
   G& g = (a % 3 == 0) ? g0 : (a % 3 == 1) ? gcopy : gassigned;
@@ -203,13 +204,13 @@ static const std::vector<Pair>& get_pairs(int r, bool th) {
 // case = (type 0..3) x res x form(0: interval, 1: symmetric) x pair index (max over res of pair count is constant)
 uint64_t vf_ncases(const std::string& tier) {
   bool th = tier == "thorough";
-  return 4ull * kNRes * 2 * get_pairs(0, th).size();
+  return 4ull * kNRes * 3 * get_pairs(0, th).size();
 }
 
 void vf_run(uint64_t idx, const std::string& tier, vf::Ctx& c) {
   bool th = tier == "thorough";
   size_t np = get_pairs(0, th).size();
-  vf::Radix r; r.dims = {4, (uint64_t)kNRes, 2, np};
+  vf::Radix r; r.dims = {4, (uint64_t)kNRes, 3, np};
   auto t = r.decode(idx);
   const auto& P = get_pairs((int)t[1], th);
   size_t a = t[3] % P.size();
@@ -231,6 +232,7 @@ std::string vf_describe(const std::string& tier) {
   vf::JO o;
   o.vec("resolutions", std::vector<double>(kRes, kRes + kNRes));
   o.u("bound_pairs_per_resolution", get_pairs(0, th).size());
+  o.str("forms", "symmetric maximal-range form; general interval form with independent bound pairs per axis; general interval form with twin axes (same width, lower bounds 4 / -3 cells apart)");
   o.str("bounds", "(i+f)*res, i in [-6,6] (quick: -6,-1,0,1,5), f in {0,+-1/4,1/2}; absolute +-1000,-999.9995,512,-512.3,+-1.5,-0.7,2.25,37.5,-64,999.75");
   o.str("types", "double/float x 2D/3D; interval and symmetric constructor");
   o.str("tolerance", "res/2 + 3 ulp(max|bound|+res) + 4 eps (extent+res)");
